@@ -162,9 +162,20 @@ func (p *rawPeer) recv(b []byte) {
 		case "reject":
 			p.send(refsn.Pkt{Type: refsn.REGACK, TopicID: pk.TopicID, MsgID: pk.MsgID, RC: refsn.RCInvalidTopic}, "auto")
 		default:
+			ackID := pk.TopicID
+			if pol.Register == "accept-stale-id" {
+				// a sloppy client: its REGACK carries the lowest id it has learnt before (what a
+				// stale duplicate of an older REGACK looks like), or id+1 when it knows none
+				ackID = pk.TopicID + 1
+				for id := range p.regs {
+					if id != pk.TopicID && (ackID == pk.TopicID+1 || id < ackID) {
+						ackID = id
+					}
+				}
+			}
 			p.regs[pk.TopicID] = pk.TopicName
 			w.Log("peer:"+p.plan.Name, "learn", nil, fmt.Sprintf("%d=%s via REGISTER", pk.TopicID, pk.TopicName), int64(pk.TopicID))
-			p.send(refsn.Pkt{Type: refsn.REGACK, TopicID: pk.TopicID, MsgID: pk.MsgID, RC: refsn.RCAccepted}, "auto")
+			p.send(refsn.Pkt{Type: refsn.REGACK, TopicID: ackID, MsgID: pk.MsgID, RC: refsn.RCAccepted}, "auto")
 		}
 	case refsn.REGACK:
 		if name, ok := p.pendReg[pk.MsgID]; ok && pk.RC == refsn.RCAccepted {
